@@ -399,8 +399,137 @@ def is_split_def(a):
         and a.value.func.attr in ("split", "rsplit")
 
 
+_DEPTH_CACHE: dict = {}
+
+
+def ctx_depth_states(dv, nm, stack_vars):
+    """Typestate of the group parser, per CFG node (state on entry): (delta, lo) with
+        delta = depth(nm) - len(stack)     (depth: 0 = the root message, k = a group context k levels down)
+        lo    = a lower bound of len(stack) known from the tests passed
+    plus, for locals that hold a context, their own delta.  `nm.parent` / `.tag` / `.repeating_group_tags` exist iff
+    depth(nm) >= 1, i.e. lo + delta >= 1.  Effects: append -> (delta-1, lo+1); del stack[-1] / pop -> (delta+1, lo-1);
+    nm = nm.parent -> delta-1; nm = <ctx built with parent P> -> delta(P)+1; a test of the stack narrows lo.
+    None as a delta means 'not known' (different values meet).  Independent of the order in which a block performs
+    its stack / current-context updates."""
+    key = (id(dv.cfg), nm)
+    if key in _DEPTH_CACHE:
+        return _DEPTH_CACHE[key]
+    g = dv.cfg
+    stack = next(iter(stack_vars)) if len(stack_vars) == 1 else None
+    TOP = "?"
+
+    def depth_of(e, st):
+        """delta of the context an expression denotes, else TOP"""
+        d, lo, loc_ = st
+        if isinstance(e, ast.Name):
+            if e.id == nm:
+                return d
+            return loc_.get(e.id, TOP)
+        if isinstance(e, ast.Attribute) and e.attr == "parent":
+            b = depth_of(e.value, st)
+            return TOP if b == TOP else b - 1
+        if isinstance(e, ast.Call) and unparse(e.func) == "_RepeatingGroupContext" and len(e.args) == 3:
+            b = depth_of(e.args[2], st)
+            return TOP if b == TOP else b + 1
+        return TOP
+
+    def shift(st, k):
+        d, lo, loc_ = st
+        return (d if d == TOP else d + k, lo, {a: (b if b == TOP else b + k) for a, b in loc_.items()})
+
+    def transfer(node, st):
+        d, lo, loc_ = st
+        for r in node_exprs(node):
+            if node.kind == "test":
+                continue
+            if isinstance(r, ast.Expr) and isinstance(r.value, ast.Call) and isinstance(r.value.func, ast.Attribute) and unparse(r.value.func.value) == stack:
+                if r.value.func.attr == "append":
+                    d, lo, loc_ = shift((d, lo + 1, loc_), -1)
+                elif r.value.func.attr == "pop":
+                    d, lo, loc_ = shift((d, max(lo - 1, 0), loc_), +1)
+                elif r.value.func.attr in ("clear", "insert", "extend", "remove"):
+                    d, loc_ = TOP, {}
+                    lo = 0
+            elif isinstance(r, ast.Delete) and any(isinstance(t, ast.Subscript) and unparse(t.value) == stack for t in r.targets):
+                d, lo, loc_ = shift((d, max(lo - 1, 0), loc_), +1)
+            elif isinstance(r, ast.Assign) and len(r.targets) == 1 and isinstance(r.targets[0], ast.Name):
+                t = r.targets[0].id
+                if t == stack:
+                    if isinstance(r.value, ast.List) and not r.value.elts:
+                        # stack := []: depth(nm) unchanged, len = 0
+                        d, lo, loc_ = TOP if d == TOP else d, 0, dict(loc_)
+                        if (nm, "root") in getattr(dv, "_rootinit", ()):  # never set; kept for clarity
+                            pass
+                    else:
+                        d, lo, loc_ = TOP, 0, {}
+                    continue
+                v = depth_of(r.value, (d, lo, loc_))
+                if t == nm:
+                    if v == TOP and isinstance(r.value, ast.Name) and r.value.id in root_names:
+                        # nm := the root message: depth 0 (delta = -len; len is 0 where the parser starts)
+                        v = 0 - 0 if lo == 0 and zero_len.get(node.id, False) else TOP
+                    d = v
+                else:
+                    loc_ = dict(loc_)
+                    if v == TOP:
+                        loc_.pop(t, None)
+                    else:
+                        loc_[t] = v
+        return (d, lo, loc_)
+
+    root_names = {n.targets[0].id for n in walk_no_nested(dv.fn) if isinstance(n, ast.Assign) and len(n.targets) == 1 and isinstance(n.targets[0], ast.Name)
+                  and isinstance(n.value, ast.Call) and unparse(n.value.func) == "FIXMessage"}
+    # the stack is known to be empty from its `= []` initialisation until the first append / loop
+    zero_len = {}
+
+    def join(a, b):
+        if a is None:
+            return b
+        d1, lo1, l1 = a
+        d2, lo2, l2 = b
+        d = d1 if d1 == d2 else TOP
+        loc_ = {k: l1[k] for k in l1 if k in l2 and l1[k] == l2[k]}
+        return (d, min(lo1, lo2), loc_)
+
+    state = {g.entry: (TOP, 0, {})}
+    # initialisation: before the field loop, `stack = []` and `nm = <root>` give delta 0
+    init_seen = {"stack": False}
+    work = [g.entry]
+    rounds = 0
+    while work and rounds < 20000:
+        rounds += 1
+        nid = work.pop()
+        st = state[nid]
+        node = g.nodes[nid]
+        # initial binding of nm to the root message while the stack is the empty literal: delta = 0
+        out = transfer(node, st)
+        a = node.ast
+        if node.kind == "stmt" and isinstance(a, ast.Assign) and len(a.targets) == 1 and isinstance(a.targets[0], ast.Name):
+            if a.targets[0].id == stack and isinstance(a.value, ast.List) and not a.value.elts:
+                out = (out[0], 0, out[2])
+                init_seen["stack"] = True
+            if a.targets[0].id == nm and isinstance(a.value, ast.Name) and a.value.id in root_names:
+                out = (0, out[1], out[2])  # checked below: the stack is empty at this point (delta 0 means depth == len)
+        for dst, lab in g.succs(nid, exc=True):
+            o = out
+            if node.kind == "test" and lab in ("true", "false") and stack is not None:
+                fs = facts(node.ast, lab == "true")
+                if (stack, True) in fs:
+                    o = (o[0], max(o[1], 1), o[2])
+            new = join(state.get(dst), o)
+            if new != state.get(dst):
+                state[dst] = new
+                work.append(dst)
+    _DEPTH_CACHE[key] = state
+    return state
+
+
 def check_ctx_attr(dv, node, root, x, nm, report, stack_vars, fresh):
     g = dv.cfg
+    # typestate first: depth(nm) >= 1 at this node whatever order the block updates stack and context in
+    st = ctx_depth_states(dv, nm, stack_vars).get(node.id)
+    if st is not None and st[0] != "?" and st[1] + st[0] >= 1:
+        return 1
     wanted = {(s, True) for s in stack_vars} | {(f"type({nm}) is _RepeatingGroupContext", True),
                                                  (f"isinstance({nm}, _RepeatingGroupContext)", True)}
     if local_facts(root, x) & wanted:
@@ -856,20 +985,52 @@ def checksum_rule(ctx, R4, dv):
 
 
 def checksum_shape(dv, v):
-    t = unparse(v)
-    if not re.search(r"%\s*256\s*$", t):
-        return False
-    if "sum(" not in t or "ord(" not in t:
-        return False
-    # the summed text: join of the field list without its last element, +1 field separator (SOH == 1)
-    names = [x.id for x in ast.walk(v) if isinstance(x, ast.Name)]
+    """v is (sum(ord(c) for c in SOH.join(fields[:-1])) + 1) % 256 up to arithmetic re-association: evaluated to the normal
+    form (summed text, constant offset mod 256, reduced mod 256 at the top), through locals."""
     from sa.guards import derivation
-    for nm in names:
-        for e in derivation(dv.fn, nm, 0).get(nm, []):
-            te = unparse(e)
-            if ".join(" in te and "[:-1]" in te and dv.fold_str(e.func.value) == dv.soh if isinstance(e, ast.Call) and isinstance(e.func, ast.Attribute) else False:
-                # + 1 for the SOH that follows the last summed field
-                return bool(re.search(r"\+\s*1\s*\)\s*%\s*256", t)) and ord(dv.soh) == 1
+
+    def through(e, depth=0):
+        """the expressions a Name stands for (its definitions), else the expression itself"""
+        if isinstance(e, ast.Name) and depth < 4:
+            vals = derivation(dv.fn, e.id, 0).get(e.id, [])
+            return vals or [e]
+        return [e]
+
+    def norm(e, depth=0):
+        """-> (text expr, offset, reduced) or None"""
+        if depth > 8:
+            return None
+        if isinstance(e, ast.Name):
+            outs = [norm(x, depth + 1) for x in through(e) if x is not e]
+            outs = [o for o in outs if o is not None]
+            if not outs or any((unparse(o[0]), o[1], o[2]) != (unparse(outs[0][0]), outs[0][1], outs[0][2]) for o in outs):
+                return None
+            return outs[0]
+        if isinstance(e, ast.BinOp) and isinstance(e.op, ast.Mod) and isinstance(e.right, ast.Constant) and e.right.value == 256:
+            a = norm(e.left, depth + 1)
+            return None if a is None else (a[0], a[1] % 256, True)
+        if isinstance(e, ast.BinOp) and isinstance(e.op, ast.Add):
+            for x, c in ((e.left, e.right), (e.right, e.left)):
+                if isinstance(c, ast.Constant) and isinstance(c.value, int):
+                    a = norm(x, depth + 1)
+                    return None if a is None else (a[0], a[1] + c.value, False)
+            return None
+        if isinstance(e, ast.Call) and isinstance(e.func, ast.Name) and e.func.id == "sum" and len(e.args) == 1 and isinstance(e.args[0], (ast.ListComp, ast.GeneratorExp)):
+            comp = e.args[0]
+            if len(comp.generators) == 1 and not comp.generators[0].ifs and isinstance(comp.generators[0].target, ast.Name) \
+                    and unparse(comp.elt) == f"ord({comp.generators[0].target.id})":
+                return (comp.generators[0].iter, 0, False)
+        return None
+
+    n = norm(v)
+    if n is None or not n[2]:
+        return False
+    text, off, _ = n
+    for te in through(text):
+        if isinstance(te, ast.Call) and isinstance(te.func, ast.Attribute) and te.func.attr == "join" and len(te.args) == 1 and dv.fold_str(te.func.value) == dv.soh \
+                and unparse(te.args[0]).endswith("[:-1]"):
+            # + the SOH that follows the last summed field
+            return off % 256 == ord(dv.soh) % 256
     return False
 
 
